@@ -4,6 +4,7 @@ import (
 	"sync"
 	"time"
 
+	"go.amzn.com/lambda/core"
 	"go.amzn.com/lambda/rapid"
 	"go.amzn.com/lambda/rapidcore"
 	"verifharness/rec"
@@ -26,6 +27,7 @@ type Gates struct {
 func newGates(r *rec.Recorder) *Gates {
 	g := &Gates{rec: r, armed: map[string]int{}, skip: map[string]int{}, held: map[string][]chan struct{}{}}
 	rapid.VerifHook = g.at
+	core.VerifHook = g.at
 	rapidcore.VerifHook = g.at
 	return g
 }
